@@ -52,9 +52,9 @@ try:
     result = "pass" if rct == 0 else "FAIL: " + ot[-800:]
     if rct != 0:
         # some tests fail in this sandbox without any change (no network, running as root): compare with the untouched tree
-        sh(f"git stash -q", cwd=wt)
+        sh(f"git apply -R {os.path.join(src, 'patch.diff')}", cwd=wt)  # (the stash is shared between worktrees: not used)
         rcb0, ob0 = sh(f"go test -count=1 {tp}", cwd=wt)
-        sh(f"git stash pop -q", cwd=wt)
+        sh(f"git apply {os.path.join(src, 'patch.diff')}", cwd=wt)
         base = sorted(set(re.findall(r"^--- FAIL: (\S+)", ob0, flags=re.M)))
         if fails == base and fails:
             result = "pass (same %d sandbox-related failures as the untouched tree: %s)" % (len(base), ",".join(base)[:200])
